@@ -650,37 +650,7 @@ func (r *rpRun) run(b Behaviour, idx int) {
 	mine := func(i int) func(args []interface{}) bool {
 		return func(args []interface{}) bool { return r.isStore(args, i) }
 	}
-	// C16: a replicated event announces only entries the store holds when the event is received
-	if sub, err := r.nodes["a"].Bus().Subscribe(new(stores.EventReplicated), eventbus.BufSize(0)); err == nil {
-		octx, ocancel := context.WithCancel(context.Background())
-		defer ocancel()
-		go func() {
-			defer sub.Close()
-			for {
-				select {
-				case <-octx.Done():
-					return
-				case e := <-sub.Out():
-					evt, ok := e.(stores.EventReplicated)
-					if !ok || evt.Address.String() != r.a.Addr {
-						continue
-					}
-					all := r.a.S.(orbitdb.KeyValueStore).All()
-					for _, en := range evt.Entries {
-						r.res.Comparisons++
-						_, inLog := r.a.S.OpLog().Get(en.GetHash())
-						key := ""
-						if op, err := operation.ParseOperation(en); err == nil && op.GetKey() != nil {
-							key = *op.GetKey()
-						}
-						if _, inView := all[key]; !inLog || !inView {
-							r.violate("replicated-event", fmt.Sprintf("a replicated event announces entry %d (key %s) which the store does not hold when the event is received (in log: %v, in view: %v)", r.ids[en.GetHash().String()], key, inLog, inView), nil, nil)
-						}
-					}
-				}
-			}
-		}()
-	}
+	defer r.observeReplicated()()
 	h.ParkAt("repl.slot.wait", mine(1))
 	h.ParkAt("repl.fetch", mine(1))
 	h.ParkAt("repl.fetched", mine(1))
@@ -808,6 +778,60 @@ func (r *rpRun) run(b Behaviour, idx int) {
 		}
 	}
 	r.loadCancelled(b, idx, got2)
+}
+
+// observeReplicated (C16): a replicated event announces only entries the store holds, and shows, when the event is
+// received. It returns the function that stops the observer.
+func (r *rpRun) observeReplicated() func() {
+	sub, err := r.nodes["a"].Bus().Subscribe(new(stores.EventReplicated), eventbus.BufSize(0))
+	if err != nil {
+		return func() {}
+	}
+	octx, ocancel := context.WithCancel(context.Background())
+	go func() {
+		defer sub.Close()
+		for {
+			select {
+			case <-octx.Done():
+				return
+			case e := <-sub.Out():
+				evt, ok := e.(stores.EventReplicated)
+				if !ok || evt.Address.String() != r.a.Addr {
+					continue
+				}
+				all := r.a.S.(orbitdb.KeyValueStore).All()
+				for _, en := range evt.Entries {
+					r.res.Comparisons++
+					_, inLog := r.a.S.OpLog().Get(en.GetHash())
+					key := ""
+					if op, err := operation.ParseOperation(en); err == nil && op.GetKey() != nil {
+						key = *op.GetKey()
+					}
+					if _, inView := all[key]; !inLog || !inView {
+						r.violate("replicated-event", fmt.Sprintf("a replicated event announces entry %d (key %s) which the store does not hold when the event is received (in log: %v, in view: %v)", r.ids[en.GetHash().String()], key, inLog, inView), nil, nil)
+					}
+				}
+			}
+		}
+	}()
+	return ocancel
+}
+
+// viewShowsLog: the view shows what the log holds (every entry of these DAGs writes its own key)
+func (r *rpRun) viewShowsLog(when string) {
+	got := r.logIDs()
+	view := []int{}
+	all := r.a.S.(orbitdb.KeyValueStore).All()
+	for id := range r.entries {
+		if _, ok := all[fmt.Sprintf("k%d", id)]; ok {
+			view = append(view, id)
+		}
+	}
+	sort.Ints(view)
+	r.res.Comparisons++
+	if !eqInts(view, got) {
+		r.violate("view-stale", when+": entries in the log are not reflected by the view", got, view)
+	}
 }
 
 // loadCancelled (C11, load requests): the replica is started once more; a first Load is given up by its caller
@@ -975,6 +999,7 @@ func (r *rpRun) fetchErrors(deny []int) {
 		return
 	}
 	defer r.teardown()
+	defer r.observeReplicated()()
 	r.res.Behaviours++
 	pa := r.nodes["a"].P
 	for _, id := range deny {
@@ -1010,6 +1035,7 @@ func (r *rpRun) fetchErrors(deny []int) {
 			return
 		}
 	}
+	r.viewShowsLog(fmt.Sprintf("after the reads of blocks %v failed and the request was made again", deny))
 	_ = r.a.S.Sync(context.Background(), heads(final))
 	if err := sim.Settle(8*time.Second, r.nodes["a"]); err != nil {
 		r.violate("wedged", fmt.Sprintf("after a request for newer heads the replica does not come to rest: %v", err), nil, r.a.ReplStats())
@@ -1023,6 +1049,7 @@ func (r *rpRun) fetchErrors(deny []int) {
 			return
 		}
 	}
+	r.viewShowsLog(fmt.Sprintf("after failed block reads (%v) and a request for newer heads", deny))
 }
 
 // longOutage: a request is made while nobody provides the blocks; the outage lasts long (fetches that give up
